@@ -68,15 +68,20 @@ class Roles(object):
         return "_listening"
 
     def _sweeps(self):
+        """sweep_all: the Server method the timer callable runs (directly or
+        through helpers) that visits the apps; sweep_app: the AppNamespace
+        method it calls per app, inside its loop (possibly through a helper)"""
         sweep_all = None
         sweep_app = None
         for p, e, loops in each_event(self.model, ["timer"], ("call",)):
-            if sweep_all is None and e["callee"].startswith("Server.") and \
-                    len(e["stack"]) == 2 and len(e["args"]) >= 2:
-                sweep_all = e["callee"]
-            if sweep_all is not None and sweep_app is None and e["func"] == sweep_all and \
-                    e["callee"].startswith("AppNamespace.") and loops and len(e["args"]) >= 2:
-                sweep_app = e["callee"]
+            if sweep_app is None and e["callee"].startswith("AppNamespace.") and loops \
+                    and len(e["args"]) >= 2 and not e["callee"].split(".")[1].startswith("__") \
+                    and e["func"].startswith("Server."):
+                # the outermost Server method on the stack is the sweep
+                servers = [f for f in e["stack"] if f.startswith("Server.")]
+                if servers:
+                    sweep_all = servers[0]
+                    sweep_app = e["callee"]
         if sweep_all is None or sweep_app is None:
             raise AnalysisError("role: the timer callable does not reach a per-app sweep "
                                 "(sweep_all=%s, sweep_app=%s)" % (sweep_all, sweep_app))
